@@ -11,6 +11,10 @@ canonical handshakes of <= 16 bytes (<= 20 in the thorough tier; longer ones: ev
 Oracle: lib/ref_socks5.py (independent RFC 1928/1929 acceptor model, a set of acceptable outcomes) judges the run
 of the real Socks5Proxy layer under lib/driver.py; the segmented/scheduled run must be observably identical to the
 unsegmented one (replies, close, connection attempts, destination, bytes handed to the next layer).
+The next layer is a passive recorder (3/4 of the cases) or the real TCPLayer (1/4: relayed bytes observed at the
+server peer).  Thorough tier only, optional: an atheris campaign (4 shards x VERIF_ATHERIS_RUNS execs, Socks5Proxy
+methods instrumented) whose target decodes bytes -> case and runs the same oracle; skipped with a note in the
+evidence when atheris is not importable from /verif/.deps.
 """
 import os
 import sys
